@@ -518,7 +518,7 @@ func (b *ASTBuilder) buildTryStatement(tsNode *sitter.Node) *Node {
 	childCount := int(tsNode.ChildCount())
 	for i := 0; i < childCount; i++ {
 		child := tsNode.Child(i)
-		if child != nil && child.Type() == "except_clause" {
+		if child != nil && (child.Type() == "except_clause" || child.Type() == "except_group_clause") {
 			if handler := b.buildExceptHandler(child); handler != nil {
 				node.Handlers = append(node.Handlers, handler)
 			}
@@ -1624,7 +1624,7 @@ func (b *ASTBuilder) buildExceptHandler(tsNode *sitter.Node) *Node {
 					node.Body = b.extractBlockBody(body, node)
 				}
 			default:
-				if child.Type() != "except" && child.Type() != ":" {
+				if child.Type() != "except" && child.Type() != "except*" && child.Type() != ":" {
 					// Exception type without alias
 					node.Value = b.buildNode(child)
 				}
